@@ -4,6 +4,7 @@ package gen
 
 import (
 	"fmt"
+	"math"
 	"sort"
 	"strings"
 
@@ -119,6 +120,10 @@ func (g *G) chance(pct int, label string) bool {
 }
 
 func pickStr(g *G, pool []string, label string) string {
+	return pool[g.draw(len(pool), label)]
+}
+
+func pickInt(g *G, pool []int, label string) int {
 	return pool[g.draw(len(pool), label)]
 }
 
@@ -348,7 +353,7 @@ func (g *G) genMeta() {
 // boundaryTexts look like the special argument forms but are plain strings by the documented rules.
 // formatterTexts: string contents that a source-level post-processing of the generated file (blank-line squeezing,
 // comment handling, raw-string emission) could damage.
-var formatterTexts = []string{"a\n\n\tb", "x\n\n\n\ty\n", "\n\n\t", "all: build\n\n\tgo build ./...\n", "}\n\n\tfunc f() {", "*/ x /*", "// c\n\n\t// d", "`a`\n\n\tb", "\r\n\r\n\tz", "\t\n\n \n\t"}
+var formatterTexts = []string{"a\n\n\tb", "x\n\n\n\ty\n", "\n\n\t", "all: build\n\n\tgo build ./...\n", "}\n\n\tfunc f() {", "*/ x /*", "// c\n\n\t// d", "`a`\n\n\tb", "\r\n\r\n\tz", "\t\n\n \n\t", "x\n\n", "a\nb\n\n\n", "k: v\n"}
 
 var boundaryTexts = []string{"!value", "!tagged", "!valu", "!valueX", "!taggedx y", "!", "$gontaine", "$gontainerX", " $gontainer", " @a", "!Value x", "! value x", "x@a", "x!tagged t"}
 
@@ -542,6 +547,21 @@ func (g *G) genLiteral(label string) cfg.Val {
 		if g.O.NonFinite && g.chance(35, label+"-nf") {
 			g.L.Add("lit:nonfinite")
 			return cfg.Val{K: "float", FS: rapid.SampledFrom([]string{".inf", "-.inf", ".nan"}).Draw(g.T, label+"-fs")}
+		}
+		if g.chance(30, label+"-binade") {
+			// a magnitude from a drawn binade: half of the draws from the binades next to a representation boundary (53-bit
+			// mantissa, 64-bit integers, the 1e21 threshold of positional notation, float32, the 512 bits of an untyped Go
+			// integer constant, the largest exponent), the others from any binade of float64
+			g.L.Add("lit:float-binade")
+			k := -1074 + g.draw(2098, label+"-exp")
+			if g.flip(label + "-edge") {
+				k = pickInt(g, []int{52, 53, 62, 63, 64, 69, 70, 127, 128, 510, 511, 512, 513, 1022, 1023, -1022, -1023}, label+"-edgeexp")
+			}
+			f := math.Ldexp([]float64{1, 1.5, 1.9999999999999998}[g.draw(3, label+"-mant")], k)
+			if g.flip(label + "-neg") {
+				f = -f
+			}
+			return cfg.Float(f)
 		}
 		g.L.Add("lit:float")
 		return cfg.Float(rapid.SampledFrom([]float64{0, 1.5, -2.25, 1e21, 1e-7, 3.0, 123456789.125, 1.0, -2.0, 100.0,
